@@ -15,10 +15,21 @@
    CAPACITY did not fit the other size_type threw although the sizes did: the cross-type oracle found it, 344 cases).
    [C13_exchange_checks_ranges]: the raw buffer exchange (two swap_sizetype calls) throws exactly when a capacity does not
    fit the other size_type, compared by the maxima of the types (a uint8_t / int8_t pair used to be exchanged unchecked),
-   and never after a word has been written; [C13_exchange_guarded]: under canExchangeDynStorage it never throws.  No element is lost, duplicated, leaked or destroyed twice: decided on the implementation by the identity
-   ledger of the cross-type driver over every pair of 8 vector types x operand states x sizes. *)
+   and never after a word has been written; [C13_exchange_guarded]: under canExchangeDynStorage it never throws.
+   Elements (Swap2Elems.v, slot level, both element flavours with noexcept moves): the element-wise path - adjustCapacity of each
+   side (relocation into a new block when the other's size exceeds the capacity) followed by swap_deep on the blocks owned now -
+   between two vectors of ARBITRARY, different capacities: [C13_elements_exchanged]: never a lifetime error, nothing throws, the
+   block vector 1 owns afterwards holds the old element sequence of vector 2 (values and order) and is a well-formed vector of
+   that size, and vice versa; a block left behind is entirely raw (nothing leaked in it, nothing destroyed twice); no slot
+   outside the ranges involved changed; [C13_elements_conserved]: the number of objects alive over all four blocks is n1 + n2
+   before and after; [C13_at_most_one_side_grows].  swap_deep and the relocation are each tied to the code by the slot
+   correspondence (its swap_deep and relocate_new families), their order and the growth decisions by the allocator requests compared in
+   the swap2 correspondence.  Over whole histories and for the buffer exchange the identity ledger of the cross-type driver decides
+   on the implementation, over every pair of 8 vector types x operand states x sizes, that no element is lost, duplicated, leaked
+   or destroyed twice. *)
 From Coq Require Import ZArith List Bool.
 From Amc Require Import GenPrelude Words VecModel VecProofs Swap2.
+From Amc Require Throw EmplaceGrow ThrowMove Transfer Swap2Elems.
 Import ListNotations.
 Local Open Scope Z_scope.
 
@@ -70,3 +81,37 @@ Example C13_example :
   match swap2x c1 c2 {| capa_ := 210; size_ := 100 |} {| capa_ := 5; size_ := 5 |} with
   | inl (t', o', _, _) => b_size c1 t' = 5 /\ b_size c2 o' = 100 /\ capa_ t' = 210 | inr _ => False end.
 Proof. vm_compute. repeat split; reflexivity. Qed.
+
+Local Close Scope Z_scope.
+(* ---- the elements: the element-wise path of swap2 at slot level, any two capacities ------------------------------------------------------- *)
+Theorem C13_elements_exchanged :
+  forall tr m th t b1 n1 cap1 d1 capd1 b2 n2 cap2 d2 capd2,
+  Swap2Elems.Layout m t b1 n1 cap1 d1 capd1 b2 n2 cap2 d2 capd2 ->
+  let g1 := Nat.ltb cap1 n2 in let g2 := Nat.ltb cap2 n1 in
+  let B1 := if g1 then d1 else b1 in let C1 := if g1 then capd1 else cap1 in
+  let B2 := if g2 then d2 else b2 in let C2 := if g2 then capd2 else cap2 in
+  match Transfer.lift (Swap2Elems.swap2_elems tr m t b1 n1 cap1 d1 b2 n2 cap2 d2) th with
+  | Throw.Done m' th' =>
+      th' = th /\ Transfer.content m' B1 n2 = Transfer.content m b2 n2 /\ Transfer.content m' B2 n1 = Transfer.content m b1 n1 /\
+      Transfer.Rng m' B1 n2 C1 /\ Transfer.Rng m' B2 n1 C2 /\
+      (g1 = true -> Transfer.Rng m' b1 0 cap1) /\ (g2 = true -> Transfer.Rng m' b2 0 cap2) /\
+      (g1 = false -> Transfer.Rng m' d1 0 capd1) /\ (g2 = false -> Transfer.Rng m' d2 0 capd2) /\ m' t = Throw.Raw /\
+      (forall j, ~ Transfer.inR b1 cap1 j -> ~ Transfer.inR b2 cap2 j -> ~ Transfer.inR d1 capd1 j -> ~ Transfer.inR d2 capd2 j -> m' j = m j)
+  | Throw.Threw _ => False
+  | Throw.Err _ => False end.
+Proof. exact Swap2Elems.swap2_elems_spec. Qed.
+
+Theorem C13_elements_conserved :
+  forall tr m t b1 n1 cap1 d1 capd1 b2 n2 cap2 d2 capd2 m',
+  Swap2Elems.Layout m t b1 n1 cap1 d1 capd1 b2 n2 cap2 d2 capd2 -> Swap2Elems.swap2_elems tr m t b1 n1 cap1 d1 b2 n2 cap2 d2 = inl m' ->
+  (Transfer.count_live m' b1 cap1 + Transfer.count_live m' b2 cap2 + Transfer.count_live m' d1 capd1 + Transfer.count_live m' d2 capd2 = n1 + n2 /\
+   Transfer.count_live m b1 cap1 + Transfer.count_live m b2 cap2 + Transfer.count_live m d1 capd1 + Transfer.count_live m d2 capd2 = n1 + n2 /\
+   Transfer.count_live m' t 1 = 0)%nat.
+Proof. exact Swap2Elems.swap2_elems_conserves. Qed.
+
+Theorem C13_at_most_one_side_grows : forall n1 cap1 n2 cap2, (n1 <= cap1 -> n2 <= cap2 -> ~ (cap1 < n2 /\ cap2 < n1))%nat.
+Proof. exact Swap2Elems.at_most_one_grows. Qed.
+
+(* non-vacuity: a full SmallVector<_, 2> [10, 11] x a heap vector [20, 21, 22, 23] of capacity 5: the first one grows *)
+Example C13_elements_example : Swap2Elems.Layout Swap2Elems.init4 3 0 2 2 12 6 5 4 5 20 4.
+Proof. exact Swap2Elems.init4_layout. Qed.
